@@ -167,8 +167,17 @@ def gen_program(rng, cfg):
                 ent = float(-np.sum(3.0 * np.log(3.0)) * 1.0)
                 cons.append(['>=', ['f', 'entropy', ['+', ['v', 'x'], ['c', e]]],
                              ['c', round(-n * 3.0 * float(np.log(3.0)) - gen.r2(rng, 0.1, 1), 4)]])
+    x0e = ['i', ['v', 'x'], 0]
     if variant == 'infeasible':
-        cons.append(['>=', ['i', ['v', 'x'], 0], ['c', round(ubx[0] + 1.0, 2)]])
+        if rng.random() < 0.35:
+            # infeasible through a row WITHOUT variables (its coefficients cancel): 0 <= -1 or 0 == 0.5
+            cons.append(rng.choice([['<=', ['-', x0e, x0e], ['c', -1.0]], ['==', ['-', x0e, x0e], ['c', 0.5]],
+                                    ['>=', ['*', ['c', 0.0], x0e], ['c', 2.0]]]))
+        else:
+            cons.append(['>=', x0e, ['c', round(ubx[0] + 1.0, 2)]])
+    elif rng.random() < 0.15:
+        # a harmless row without variables: 0 <= 1 or 0 == 0
+        cons.append(rng.choice([['<=', ['-', x0e, x0e], ['c', 1.0]], ['==', ['-', x0e, x0e], ['c', 0.0]]]))
     cobj = rcoef(1.0)
     obj = lin(cobj)
     sense = rng.choice(['min', 'max'])
@@ -428,6 +437,16 @@ def check_case(case, props):
                 if fault and fault['kind'] in ('stdout_broken',) and fired_now:
                     # print failed: exception may propagate; no new solution may be claimed out of thin air
                     after_failure = True
+                    continue
+                # arbiter: the engine called directly on the snapshot (independent translation) raises as well -> the refusal
+                # is the engine's own (seen: ECOS cannot set up a program that has a row without variables)
+                try:
+                    direct.DIRECT[eng](snap)
+                    engine_raises = False
+                except Exception:
+                    engine_raises = True
+                if engine_raises and (not call.get('soc') or cls != 'EXP'):
+                    inconc('engine_itself_raises:%s' % eng)
                     continue
                 viol('healthy-call-raises', '%s raised %s on a healthy call: %s' % (sv, rec['exc'], rec.get('msg')),
                      [eng], exc=':'.join(rec['exc']))
